@@ -134,7 +134,33 @@ def install_shared_v4_score(sess, mod):
     sess._abs4 = True
 
 
-def task_c12(version, fixed, label):
+def install_shared_score(sess, mod, version):
+    """every object built in this session gets the SAME arbitrary scores (sound where all objects
+    of the session have the same metric map: the scores are functions of the metric map)"""
+    if version == 4:
+        install_shared_v4_score(sess, mod)
+        return
+    from decimal import Decimal
+
+    cls = mod.globals["CVSS%d" % version]
+    decs = [Decimal(k) / Decimal(10) for k in range(0, 101)]
+
+    def mk(attr, allow_none):
+        var = sess.m.new_var("shared." + attr, decs + ([None] if allow_none else []))
+        val = sess.vc.from_var(var)
+
+        def stub(it, args, kwargs, pc):
+            it.set_attr(args[0], attr, val, pc)
+            return None
+
+        return NativeHandler(stub, attr + "[shared arbitrary score]")
+
+    cls.ns["compute_base_score"] = mk("base_score", False)
+    cls.ns["compute_temporal_score"] = mk("temporal_score", version == 2)
+    cls.ns["compute_environmental_score"] = mk("environmental_score", version == 2)
+
+
+def task_c12(version, fixed, label, part="shape+roundtrip"):
     chk = Check("C12")
     sess = Session()
     vars_ = sess.assign_vars(version, fixed=fixed)
@@ -142,8 +168,9 @@ def task_c12(version, fixed, label):
     mod = sess.load("cvss")
     C.set_epoch(1)
     sess.begin(mod)
-    if version == 4:
-        install_shared_v4_score(sess, mod)
+    if version == 4 or part == "acceptance":
+        install_shared_score(sess, mod, version)
+        sess._abs4 = True
 
     def mk_replay(model, what):
         p = {"kind": "c12", "version": version, "vector": sess.vector_string(version, model), "what": what}
@@ -170,13 +197,22 @@ def task_c12(version, fixed, label):
             O.must_not(sess, chk, g, "%s: rh_vector() prints score %r as %r (must be the base score with one decimal)" % (label, f, t), mk_replay)
     rest = StructStr(rh.sep, chunks[1:])
     O.must_hold(sess, chk, O.eq_cond(sess, rest, clean), "%s: rh_vector() is score + '/' + clean_vector()" % label, mk_replay)
+    if part == "acceptance":
+        return c12_acceptance(sess, chk, version, label, obj, cls, X, clean, base, mk_replay)
     # (2) round trip
     back, raised = sess.call_method(cls, "from_rh_vector", [rh])
     for cond, exc in raised:
         nm = type(exc).__name__ if isinstance(exc, BaseException) else exc.cls.name
         O.must_not(sess, chk, vc.c_any(cond), "%s: from_rh_vector(x.rh_vector()) raises %s" % (label, nm), mk_replay)
     O.must_hold(sess, chk, O.eq_cond(sess, back, obj), "%s: from_rh_vector(x.rh_vector()) == x" % label, mk_replay)
+    chk.witnesses.append({"task": label, "rh_vector": sess.concretize(rh, m.pattern_assignment(0))})
+    chk.absorb(sess)
+    return chk.to_dict()
+
+
+def c12_acceptance(sess, chk, version, label, obj, cls, X, clean, base, mk_replay):
     # (3) acceptance: arbitrary score text in front of a valid vector
+    m, vc = sess.m, sess.vc
     texts = SCORE_TEXTS + ODD_SCORE_TEXTS
     tv = m.new_var("scoretext", list(range(len(texts))))
     t = vc.from_var(tv, lambda i: texts[i])
@@ -209,7 +245,6 @@ def task_c12(version, fixed, label):
     O.must_not(sess, chk, m.XOR(r_mis.l, m.AND(num, m.NOT(same))), "%s: score-mismatch error exactly when the number differs from the base score" % label, mk_replay)
     acc = m.AND(m.NOT(r_mal.l), m.NOT(r_mis.l))
     O.must_not(sess, chk, m.AND(acc, m.NOT(O.eq_cond(sess, res, obj).l)), "%s: an accepted RH vector yields the vector's object" % label, mk_replay)
-    chk.witnesses.append({"task": label, "rh_vector": sess.concretize(rh, m.pattern_assignment(0))})
     chk.absorb(sess)
     return chk.to_dict()
 
@@ -256,13 +291,14 @@ def main_c12():
             tasks.append(("task_c12", t))
     tasks.append(("task_c12", (4, {}, "v4[shared arbitrary score]")))
     for v in (2, 3, 4):
+        tasks.append(("task_c12", (v, {}, "v%d acceptance[shared arbitrary scores]" % v, "acceptance")))
         tasks.append(("task_c12_shape", (v,)))
     for r in C.run_named_tasks("harness.accessors", tasks):
         chk.absorb_dict(r)
     chk.input_model = ("M-ASSIGN with real scoring (v2 27, v3 48 sessions; v4 with one shared arbitrary score), real from_rh_vector executed on the structured string; the score part ranges over "
                        "the 101 canonical score texts plus %d odd texts, float() runs for real at the leaves" % len(ODD_SCORE_TEXTS))
     chk.bounds = ["score-part alphabet is finite (listed above); float()'s own parsing is CPython's", "vector part: valid vectors (M-ASSIGN); invalid vector parts raise the ordinary vector errors by C04 (the constructor is called unchanged)"]
-    chk.stubs = ["v4: compute_base_score := one shared arbitrary one-decimal score (all objects in a session have the same metric map)"]
+    chk.stubs = ["v4, and the acceptance lemma of every version: compute_*_score := shared arbitrary one-decimal scores (all objects in such a session have the same metric map; shape and round trip of v2/v3 use real scoring)"]
     chk.assumptions = ["str(float) of a one-decimal float prints one decimal (checked at the leaves for all 101 values)"]
     C.finish(chk)
 
